@@ -155,8 +155,9 @@ class IrcCallback(IrcCommandDispatcher, log.Firewalled):
             cb = irc.getCallback(name)
             if cb is not None:
                 before.append(cb)
-        assert self not in after, '%s was in its own after.' % self.name()
-        assert self not in before, '%s was in its own before.' % self.name()
+        # A callback naming itself is rejected by Irc.addCallback; asserting
+        # it here would only get it swallowed by the firewall (which returns
+        # ([], []), silently dropping every constraint of this callback).
         return (before, after)
 
     def inFilter(self, irc, msg):
